@@ -78,7 +78,6 @@ func c06Exec(t testing.TB, cfg c06Cfg, script []c06Op, gen func(e *c06Env, n int
 			break
 		}
 		var tok string
-		sorted := false
 		if op.rogue {
 			run.rogue = true
 		}
@@ -101,7 +100,6 @@ func c06Exec(t testing.TB, cfg c06Cfg, script []c06Op, gen func(e *c06Env, n int
 		case "x":
 			if st := e.streams[id(op)]; st != nil && st.res != nil && !st.closedB {
 				tok = e.closeBody(st.id)
-				sorted = true
 			}
 		case "ps":
 			tok = e.peerSettings(op.vals)
@@ -113,7 +111,6 @@ func c06Exec(t testing.TB, cfg c06Cfg, script []c06Op, gen func(e *c06Env, n int
 			tok = e.peerRst(id(op), uint32(op.b))
 		case "pg":
 			tok = e.peerGoAway(uint32(op.a))
-			sorted = true
 		case "ph":
 			tok = e.peerHeaders(id(op), op.flag)
 		case "pd":
@@ -124,7 +121,7 @@ func c06Exec(t testing.TB, cfg c06Cfg, script []c06Op, gen func(e *c06Env, n int
 		}
 		wasClosed := run.closedAt >= 0
 		run.tokens = append(run.tokens, tok)
-		run.transcript = append(run.transcript, e.take(sorted))
+		run.transcript = append(run.transcript, e.take(true))
 		if e.closed && !wasClosed {
 			run.closedAt = len(run.tokens) - 1
 			// closeOnIdle: the TCP close can be seen a moment before the last stream's donec closes
